@@ -37,10 +37,10 @@ def is_cyc(cls):
 
 def dag_instances(tier, seed, per_shape=2, nmax=None):
     q = tier == "quick"
-    nmax = nmax or (4 if q else 5)
+    nmax = nmax or 5
     out = []
     for idx, shp in enumerate(world.dag_shapes(nmax)):
-        if shp[0] == 5 and len(shp[1]) > 6:
+        if shp[0] == 5 and len(shp[1]) > (5 if q else 6):
             continue
         names, arcs = world.present(shp, seed, idx)
         g, paths = fdworld.dag_routes(names, arcs)
@@ -135,6 +135,10 @@ def flag_sets(cls, level):
     if level >= 1:
         for f in flags:
             out.append((f"{f}={not defaults[f]}", fix({f: (not defaults[f])})))
+    if level >= 1 and "optimize_with_greedy" in defaults:
+        # safety lists only act through this option once the greedy shortcut is out of the way
+        out.append(("safety_as_constraints,greedy_off", fix({"optimize_with_safety_as_subpath_constraints": True, "optimize_with_greedy": False})))
+        out.append(("safety_as_constraints,greedy_off,safe_sequences", fix({"optimize_with_safety_as_subpath_constraints": True, "optimize_with_greedy": False, "optimize_with_safe_sequences": True})))
     if level >= 2:
         for f1, f2 in itertools.combinations(flags, 2):
             out.append((f"{f1}={not defaults[f1]},{f2}={not defaults[f2]}", fix({f1: (not defaults[f1]), f2: (not defaults[f2])})))
